@@ -80,6 +80,10 @@ def gen_case(rng, big=False):
     groups, infos, scores = [], [], []
     # a fifth of the inputs have nearly-equal scores (distinct doubles a few 2^-30 apart): the ranking is by the exact score
     near = rng.random() < 0.2
+    # one input in six uses the scores of the other regimes: negative sums (multiplied PEPs), 0, and -100.0 - the value every score
+    # returns for an EMPTY evidence list, which a group WITH evidence reaches too (multPEP with a match-between-runs peptide, an
+    # Andromeda score of -100)
+    odd = rng.random() < 0.17
     for _ in range(ng):
         k = rng.choice([1, 1, 2, 3])
         g = []
@@ -92,6 +96,8 @@ def gen_case(rng, big=False):
         groups.append(g)
         infos.append(gen_infos(rng, g))
         scores.append(gens.fr(rng.choice([1.0, 2.0, 2.0, 3.5, 7.25]) + (rng.choice([0, 1, 2, 3]) * 2.0 ** -30 if near else 0.0)))
+        if odd:
+            scores[-1] = gens.fr(rng.choice([-100.0, -100.0, -3.5, 0.0, -150.25, 2.0]))
     case = {"strategy": rng.choice(list(STRATS)), "groups": groups, "infos": infos, "scores": scores,
             "seed": rng.randint(0, 2 ** 31 - 1)}
     if rng.random() < 0.25:
